@@ -1,4 +1,4 @@
-import CedarVerif.Lemmas.SyntaxFull
+import CedarVerif.Lemmas.SyntaxSound
 /-
 C05 — policy text → AST → text round trip.  Property theorems (every `theorem` here is an obligation).
 Model: Cedar/Syntax/{Token,Escape,Print,Parse}.lean.
@@ -17,9 +17,11 @@ What is proved about `Parse.expr (Print.expr me e) = some e` (for every escape t
   Lean core has no lemma about the legacy `String.splitOn`.  It holds for every string as far as we know.
 * `parse_print_full_of_splitOn` — `SplitOnJoin → ParsePrintFull`: the full statement follows from that one library fact.
 * `inFrag3_parserImage`, `inFrag2_inFrag3` — the fragments are nested inside `ParserImage`.
-Not proved: `ParsePrintFull` outright (needs `SplitOnJoin`); that `Parse.expr` only returns `ParserImage` ASTs (soundness of
-the image predicate; covered by the correspondence runs only); anything about policies / templates / annotations at the
-token level (checked on the implementation by the harness).
+* `parse_image` — soundness of the image predicate: on well-formed tokens `Parse.expr` only returns `ParserImage` ASTs;
+  `parse_print_parse` — accepted text → AST → printed text → the same AST.  Both under the hypothesis `SplitOnSpec`
+  (`splitOn ∘ intercalate = id` on identifiers; proof in Lemmas/SyntaxSound.lean).
+Not proved: the two `String.splitOn` facts (`SplitOnJoin`, `SplitOnSpec`) — hence `ParsePrintFull` outright; anything about
+policies / templates / annotations at the token level (checked on the implementation by the harness).
 -/
 namespace Cedar.C05
 open Cedar Cedar.Syntax
@@ -435,6 +437,33 @@ example : Print.expr (fun _ => false) (.hasAttr (.hasAttr (.var .context) "if") 
     [.lparen, .ident "context", .ident "has", .str ['i', 'f'], .rparen, .ident "has", .str ['a', ' ', 'b']] := by decide
 example : Parse.expr (Print.expr (fun _ => true) (.unaryApp .not (.hasAttr (.hasAttr (.var .context) "if") "a\"b"))) =
     some (.unaryApp .not (.hasAttr (.hasAttr (.var .context) "if") "a\"b")) := parse_print_partial _ _ (by decide)
+
+/-! ### from text: parse, print, parse again -/
+
+/-- Soundness of the image predicate: on well-formed tokens (`TokWF`: every `IDENTIFIER` token has identifier syntax,
+which the lexer guarantees) the parser only returns ASTs in `ParserImage`.  Hypothesis `SplitOnSpec`
+(`(intercalate "::" comps).splitOn "::" = comps` for identifiers `comps`): the library fact about `String.splitOn`
+needed because `ParserImage` / the printer look at a type name through `splitOn`. -/
+theorem parse_image (spec : SplitOnSpec) (ts : List Token) (hwf : TokWF ts) (e : Expr) (h : Parse.expr ts = some e) :
+    ParserImage e = true :=
+  inFrag3_parserImage (sz3 e) e (Nat.le_refl _) (parse_sound spec hwf h)
+
+/-- The round trip starting from text: whatever the parser accepts, printing the AST (with any escape table) and
+parsing again gives the same AST — hence the same meaning.  (Token level; modulo `SplitOnSpec`.) -/
+theorem parse_print_parse (spec : SplitOnSpec) (mustEscape : Char → Bool) (ts : List Token) (hwf : TokWF ts) (e : Expr)
+    (h : Parse.expr ts = some e) : Parse.expr (Print.expr mustEscape e) = some e :=
+  parse_print_partial3 mustEscape e (parse_sound spec hwf h)
+
+-- non-vacuity: `principal has a.b && resource != context.x` (desugared forms: `has a.b`, `!=`)
+example (spec : SplitOnSpec) :
+    Parse.expr (Print.expr (fun _ => false)
+      (.and (.and (.hasAttr (.var .principal) "a") (.hasAttr (.getAttr (.var .principal) "a") "b"))
+            (.unaryApp .not (.binaryApp .eq (.var .resource) (.getAttr (.var .context) "x"))))) =
+    some (.and (.and (.hasAttr (.var .principal) "a") (.hasAttr (.getAttr (.var .principal) "a") "b"))
+            (.unaryApp .not (.binaryApp .eq (.var .resource) (.getAttr (.var .context) "x")))) :=
+  parse_print_parse spec _
+    [.ident "principal", .ident "has", .ident "a", .dot, .ident "b", .andand, .ident "resource", .neq, .ident "context", .dot, .ident "x"]
+    (by intro s hs; simp at hs; rcases hs with rfl | rfl | rfl | rfl | rfl | rfl | rfl <;> decide) _ (by rfl)
 
 /-! ### non-vacuity of `parse_print_partial3` -/
 
